@@ -60,7 +60,8 @@ def native_receivers(envr):
     for text, fmts in (('', []), ('ab', [('31', 0, 2)]), ('abab', [('31', 0, 2), ('1', 1, 4)]),
                        (' aXb\tXa ', [('4', 1, 3), ('32', 2, 7), ('1', 0, 1)]), ('Ab ab AB', [('35', 3, 5)]),
                        ('xabbbb', [('31', 1, 4)]), ('aaaa', [('31', 0, 1), ('1', 2, 3)]),
-                       ('l1\nl2\r\n\nl4 \t', [('32', 1, 6), ('4', 4, 9)])):
+                       ('l1\nl2\r\n\nl4 \t', [('32', 1, 6), ('4', 4, 9)]),
+                       ('\u0130stanbul tax Mi\u017fs Miss', [('31', 0, 9), ('1', 5, 14)])):
         s = A(text)
         for f, a, b in fmts:
             s.apply_formatting(f, a, b)
